@@ -22,9 +22,11 @@
 (*            input is hostile).                                            *)
 (* container  [stream |-> "ok" | "garbage", payload, tail] : a deflate      *)
 (*            stream followed by `tail` further bytes.  The code calls      *)
-(*            `decompress_to_vec_with_limit`, which stops at the end of the *)
-(*            stream and never looks at the tail: modelled as the code has  *)
-(*            it (see RejectsTrailing in CompressMC).                       *)
+(*            used to call `decompress_to_vec_with_limit`, which stops at   *)
+(*            the end of the stream and never looks at the tail (the C15    *)
+(*            finding; TailIgnored = TRUE models that reading); it now      *)
+(*            inflates with a loop that knows the consumed length and       *)
+(*            rejects a non-empty tail (TailIgnored = FALSE).               *)
 (***************************************************************************)
 EXTENDS Naturals, Sequences, FiniteSets, TLC
 
@@ -32,7 +34,10 @@ CONSTANTS BaseList,        \* built-in table in construction order: 0, 1, -1,
                            \* hades round constants, MDS entries (duplicates occur)
           ScalarBytes(_),  \* packed size of one 32-byte scalar (32..64)
           IntBytes(_),     \* packed size of a usize (1,2,3,5,9)
-          Canonical(_)     \* the 32 bytes decode to a scalar (< r)
+          Canonical(_),    \* the 32 bytes decode to a scalar (< r)
+          TailIgnored      \* FALSE: the code as it is (inflate_exact: the stream must
+                           \* span the whole input); TRUE: the code before the fix
+                           \* (decompress_to_vec_with_limit never looked at the tail)
 
 --------------------------------------------------------------------------
 (* sizes: compiler.rs / srs.rs *)
@@ -216,6 +221,8 @@ DecompressB(cont, max, baseHades, basePlain) ==   \* the two BaseDict values
   IN IF cont.stream # "ok" THEN Err(Invalid, w0)
      ELSE IF psize > limit                      \* decompress_to_vec_with_limit
        THEN Err(Invalid, [w0 EXCEPT !.inflated = limit])
+     ELSE IF ~TailIgnored /\ cont.tail # 0      \* Done, but input remains
+       THEN Err(Invalid, [w0 EXCEPT !.inflated = psize])
      ELSE LET w1 == [w0 EXCEPT !.inflated = psize]
               (* unpack_bounded: every array header is compared with its bound
                  BEFORE any element is read; a header that promises more
